@@ -7,6 +7,7 @@ import (
 	_ "verifmc/checks/c08"
 	_ "verifmc/checks/c09"
 	_ "verifmc/checks/c10"
+	_ "verifmc/checks/c11"
 	_ "verifmc/checks/c12"
 	_ "verifmc/checks/c13"
 	_ "verifmc/checks/c14"
